@@ -22,6 +22,7 @@ RULE = (
     "non-trivial = variant pair in which some particle is removed/dies while another particle at a different depth survives to a later record; "
     "lattice points distinct by construction"
 )
+RULE += " Beyond the lattice (chosen scenarios, not enumerated): crowds of 400 particles next to the observed ones."
 ASSUMPTIONS = ["diffusion off (the statement's condition)", "float64 output so that comparison is bitwise"]
 
 S0 = world.tosec("2020-04-01T00:00:00")
